@@ -672,6 +672,10 @@ def _get_duration(self: Component) -> Optional[timedelta]:
     default = object()
     duration = self.get("duration", default)
     if isinstance(duration, vDDDTypes):
+        if not isinstance(duration.dt, timedelta):
+            raise InvalidCalendar(
+                f"DURATION must be a timedelta, not {type(duration.dt).__name__}."
+            )
         return duration.dt
     if isinstance(duration, vDuration):
         return duration.td
